@@ -243,7 +243,7 @@ def main():
         "setup_cmd": "cd /verif && bin/setup",
         "hooks": {
             "guard": "VISIONS_VERIF",
-            "enable": "no hooks are needed: every observation point is reachable from outside (DESIGN.md 4.6); checks import /repo/src through PYTHONPATH",
+            "enable": "no hooks are needed: every observation point is reachable from outside (DESIGN.md section 6); checks import /repo/src through PYTHONPATH",
             "baseline_off_cmd": "cd /repo && /venv/bin/python -m pytest -ra -q -p no:cacheprovider --timeout=900 --continue-on-collection-errors",
             "source_commits": [],
             "add_only": True,
